@@ -50,7 +50,7 @@ def _cases(draw, dmax):
     cap = None if d <= 4 else (12 if d == 5 else 8)
     a = draw(S.operand(d, max_len=cap))
     b = draw(S.operand(d, max_len=cap))
-    return {"cfg": cfg, "a": a, "b": b, "mode": draw(st.sampled_from(["generic", "generic", "frac"])),
+    return {"cfg": cfg, "a": a, "b": b, "mode": draw(st.sampled_from(["generic", "generic", "frac", "typed"])),
             "cse": draw(st.booleans()), "wrapper": draw(st.integers(0, 4)) == 0}
 
 
@@ -86,6 +86,8 @@ def enumerate_cases(tier):
 def _values(opnd, mode, prefix):
     if mode == "generic" or opnd.get("vals") is None:
         return [Q.var(f"{prefix}{k}") for k in opnd["keys"]]
+    if mode == "typed" and opnd.get("tvals"):
+        return S.decode_typed(opnd["tvals"])
     return [frac(v) for v in opnd["vals"]]
 
 
